@@ -16,7 +16,7 @@ OPTFWD-1   naming options reach the code that uses them: framework generators fo
 from __future__ import annotations
 
 import ast
-from typing import List
+from typing import List, Tuple
 
 from ..ctx import Ctx
 from ..model import AnalysisError, FuncInfo, norm, walk_no_nested
@@ -125,9 +125,17 @@ def rule_rename1(ctx: Ctx) -> RuleResult:
         elif norm(flagv) != f"{recv}.is_name_generated" and norm(flagv) != f"{recv}._name_generated":
             problems.append(f"`{flag}={norm(flagv)}` is not the model's own flag")
         namev = n.args[0] if n.args else None
-        if namev is None or not (isinstance(namev, ast.Call) and norm(namev.func) == "self.convert_class_name"
-                                 and namev.args and norm(namev.args[0]) == f"{recv}.name"):
-            problems.append("the new name is not self.convert_class_name(<the model's current name>)")
+        converted = isinstance(namev, ast.Call) and norm(namev.func) == "self.convert_class_name" and namev.args and \
+            norm(namev.args[0]) == f"{recv}.name"
+        # or: the current name with a suffix added until it is free (the de-duplication step)
+        suffixed = isinstance(namev, ast.Name) and any(
+            isinstance(x, ast.Assign) and norm(x.targets[0]) == namev.id and norm(x.value) == f"{recv}.name"
+            for x in walk_no_nested(f.node)) and all(
+            (isinstance(x, ast.Assign) and norm(x.value) == f"{recv}.name") or isinstance(x, ast.AugAssign)
+            for x in walk_no_nested(f.node) if isinstance(x, (ast.Assign, ast.AugAssign)) and
+            norm(x.targets[0] if isinstance(x, ast.Assign) else x.target) == namev.id)
+        if namev is None or not (converted or suffixed):
+            problems.append("the new name is neither self.convert_class_name(<the model's current name>) nor that name with a suffix")
         rr.ob(f.relpath, f.qualname, norm(n)[:100], "rendering renames a model only to the converted form of its current "
               "name and leaves the generated-name flag as it was", VIOLATED if problems else DISCHARGED,
               "; ".join(problems) if problems else "flag passed back, converter applied to the current name", n.lineno)
@@ -205,4 +213,150 @@ def rule_optfwd1(ctx: Ctx) -> RuleResult:
                               n.lineno)
     if n_calls < 2:
         raise AnalysisError(f"OPTFWD-1: only {n_calls} label conversions found in generator classes")
+    return rr
+
+
+# ---------------------------------------------------------------------------------------------------------------
+LOSSY_LABEL_OPS = {"re.sub": "deletes every non-word character", "unidecode": "transliterates to ASCII",
+                   "inflection.underscore": "folds camelCase and snake_case together", "underscore": "folds camelCase and snake_case together",
+                   "lower": "folds case"}
+
+
+def _lossy_ops(ctx: Ctx) -> List[str]:
+    f = ctx.prog.func(BASE, "prepare_label")
+    found = []
+    for n in walk_no_nested(f.node):
+        if isinstance(n, ast.Call):
+            fn = norm(n.func)
+            short = fn.split(".")[-1]
+            if fn in LOSSY_LABEL_OPS:
+                found.append(f"{fn} ({LOSSY_LABEL_OPS[fn]})")
+            elif short in LOSSY_LABEL_OPS and short != "lower":
+                found.append(f"{fn} ({LOSSY_LABEL_OPS[short]})")
+    return found
+
+
+def _has_disambiguation(f: FuncInfo, init: FuncInfo) -> Tuple[bool, str]:
+    """A loop / test in ``f`` that consults a per-instance collection of names already handed out and changes the label."""
+    # per-instance containers created empty by the constructor
+    containers = set()
+    for n in walk_no_nested(init.node):
+        if isinstance(n, (ast.Assign, ast.AnnAssign)) and getattr(n, "value", None) is not None:
+            t = n.targets[0] if isinstance(n, ast.Assign) else n.target
+            v = n.value
+            if isinstance(t, ast.Attribute) and isinstance(t.value, ast.Name) and t.value.id == "self" and (
+                    (isinstance(v, (ast.Dict, ast.Set, ast.List)) and not (getattr(v, "keys", None) or getattr(v, "elts", None))) or
+                    (isinstance(v, ast.Call) and norm(v.func) in ("set", "dict", "defaultdict", "Counter", "collections.Counter", "list")
+                     and not v.args)):
+                containers.add(t.attr)
+    for n in walk_no_nested(f.node):
+        if isinstance(n, (ast.While, ast.If)):
+            used = {x.attr for x in ast.walk(n.test) if isinstance(x, ast.Attribute) and isinstance(x.value, ast.Name)
+                    and x.value.id == "self" and x.attr in containers}
+            if not used:
+                continue
+            changed = {norm(s.target) for s in ast.walk(n) if isinstance(s, ast.AugAssign)} | \
+                      {norm(t) for s in ast.walk(n) if isinstance(s, ast.Assign) for t in s.targets}
+            rets = {norm(r.value) for r in walk_no_nested(f.node) if isinstance(r, ast.Return) and r.value is not None}
+            if changed & rets:
+                # the container must also learn the label (in the test itself or in the function)
+                learns = any(isinstance(c, ast.Call) and isinstance(c.func, ast.Attribute) and c.func.attr in ("setdefault", "add", "append", "update")
+                             and isinstance(c.func.value, ast.Attribute) and c.func.value.attr in used for c in walk_no_nested(f.node)) or any(
+                    isinstance(s, ast.Assign) and isinstance(s.targets[0], ast.Subscript) and isinstance(s.targets[0].value, ast.Attribute)
+                    and s.targets[0].value.attr in used for s in walk_no_nested(f.node))
+                if learns:
+                    return True, f"`{norm(n.test)[:60]}` consults self.{sorted(used)[0]} and changes `{sorted(changed & rets)[0]}` until it is free"
+    return False, "the name is a function of the key alone"
+
+
+def rule_uniq1(ctx: Ctx) -> RuleResult:
+    """Two keys of one object never get the same field name."""
+    rr = RuleResult("UNIQ-1", "field names of one model are made distinct after conversion", floor=1)
+    prog = ctx.prog
+    base = prog.cls(BASE, "GenericModelCodeGenerator")
+    init = prog.func(BASE, "GenericModelCodeGenerator.__init__")
+    lossy = _lossy_ops(ctx)
+    conv = base.methods.get("convert_field_name", [])
+    if not conv:
+        raise AnalysisError("UNIQ-1: GenericModelCodeGenerator.convert_field_name vanished")
+    f = conv[0]
+    rr.instances += 1
+    st = ("distinct keys of one object give distinct field names: the label conversion is not injective, so the generator "
+          "has to notice a label that is already taken and change it")
+    if not lossy:
+        rr.ob(f.relpath, f.qualname, "prepare_label", st, DISCHARGED, "the conversion applies no lossy operation", f.node.lineno)
+    else:
+        ok, how = _has_disambiguation(f, init)
+        # the emitting loop may do it instead
+        if not ok:
+            for alt in ("fields", "field_data"):
+                for g in base.methods.get(alt, []):
+                    ok2, how2 = _has_disambiguation(g, init)
+                    if ok2:
+                        ok, how = ok2, how2
+        rr.ob(f.relpath, f.qualname, norm(f.node.body[-1])[:80], st, DISCHARGED if ok else VIOLATED,
+              how if ok else
+              f"prepare_label {'; '.join(lossy[:3])} - and {how}: e.g. the keys \"a-b\" and \"ab\" (or \"fooBar\" and \"foo_bar\") "
+              f"of one object both become the same field, the second silently replacing the first", f.node.lineno)
+    # overrides go through the base conversion (or hand back the key itself)
+    for k in prog.subclasses(base, strict=True):
+        for g in k.methods.get("convert_field_name", []):
+            rr.instances += 1
+            rets = [r for r in walk_no_nested(g.node) if isinstance(r, ast.Return) and r.value is not None]
+            p = [a for a in g.params if a != "self"][0]
+            bad = [r for r in rets if not (norm(r.value) == p or (isinstance(r.value, ast.Call) and norm(r.value.func).startswith("super()")
+                                                                   and norm(r.value.func).endswith(".convert_field_name")))]
+            rr.ob(g.relpath, g.qualname, norm(rets[0])[:70] if rets else g.name, "an override of the field-name conversion keeps the "
+                  "base class's disambiguation (it returns the key itself or the inherited result)", VIOLATED if bad else DISCHARGED,
+                  f"`{norm(bad[0])[:50]}` bypasses the inherited conversion" if bad else "key itself / inherited result", g.node.lineno)
+    return rr
+
+
+def rule_uniq2(ctx: Ctx) -> RuleResult:
+    """Two models never get the same class name: there is a de-duplication step after the names were normalised."""
+    rr = RuleResult("UNIQ-2", "class names are made distinct after the generators normalised them", floor=1)
+    prog = ctx.prog
+    mod = prog.module(BASE)
+    entry = prog.func(BASE, "_generate_code")
+    init = prog.func(BASE, "GenericModelCodeGenerator.__init__")
+    renames = any(isinstance(n, ast.Call) and norm(n.func).endswith("set_raw_name") for n in walk_no_nested(init.node))
+    lossy = _lossy_ops(ctx)
+    rr.instances += 1
+    st = ("the registry makes the raw model names unique, but the generators normalise them afterwards with a conversion that "
+          "is not injective: a step after the construction of all generators and before rendering must separate names that "
+          "fell together")
+    if not renames or not lossy:
+        rr.ob(entry.relpath, entry.qualname, "_generate_code", st, DISCHARGED,
+              "generators do not rename models / the conversion is lossless", entry.node.lineno)
+        return rr
+    # helpers called by the entry function, in order
+    calls = [n for n in walk_no_nested(entry.node) if isinstance(n, ast.Call) and isinstance(n.func, ast.Name) and n.func.id in mod.functions]
+    calls.sort(key=lambda n: (n.lineno, n.col_offset))
+
+    def dedups(f: FuncInfo) -> bool:
+        has_set_name = any(isinstance(n, ast.Call) and norm(n.func).endswith("set_raw_name") for n in walk_no_nested(f.node))
+        membership = any(isinstance(n, (ast.While, ast.If)) and any(isinstance(c, ast.Compare) and any(isinstance(o, (ast.In, ast.NotIn)) for o in c.ops)
+                                                                   or (isinstance(c, ast.Compare) and any(isinstance(o, (ast.Gt, ast.GtE)) for o in c.ops))
+                                                                   for c in ast.walk(n.test)) for n in walk_no_nested(f.node))
+        reads_name = any(isinstance(n, ast.Attribute) and n.attr == "name" for n in walk_no_nested(f.node))
+        return has_set_name and membership and reads_name
+
+    def constructs(f: FuncInfo) -> bool:
+        return any(isinstance(n, ast.Call) and isinstance(n.func, ast.Name) and n.func.id in f.params and "generator" in n.func.id
+                   for n in walk_no_nested(f.node))
+
+    def renders(f: FuncInfo) -> bool:
+        return any(isinstance(n, ast.Call) and isinstance(n.func, ast.Attribute) and n.func.attr == "generate" for n in walk_no_nested(f.node))
+
+    kinds = []
+    for c in calls:
+        g = mod.functions[c.func.id]
+        kinds.append(("C" if constructs(g) else "") + ("D" if dedups(g) else "") + ("R" if renders(g) else ""))
+    seq = "".join(k[:1] if k else "-" for k in kinds)
+    ok = "C" in seq and "D" in seq and "R" in seq and seq.index("C") < seq.index("D") < seq.index("R")
+    rr.ob(entry.relpath, entry.qualname, " ; ".join(norm(c)[:40] for c in calls)[:110], st, DISCHARGED if ok else VIOLATED,
+          f"construct -> de-duplicate -> render ({seq})" if ok else
+          f"no de-duplication of class names between the construction of the generators and rendering (steps: {seq or 'none'}): "
+          f"e.g. the keys \"café\" and \"cafe\" (or \"größe\" and \"grosse\") give two classes with the same name, the second "
+          f"shadowing the first", entry.node.lineno)
     return rr
